@@ -579,14 +579,25 @@ def _fix_position(v, post_shift):
 
 
 def _gather(a: NdArr, idx: NdArr) -> NdArr:
-    """a[idx] with an integer index array: only concrete indices on an explicit axis."""
-    out = []
-    for i in idx.data:
-        i = _as_int(i)
-        if not isinstance(i, int):
-            raise AnalysisError("gather with symbolic indices")
-        out.append(getitem(a, i))
-    return stack(out, 0) if idx.shape else out[0]
+    """a[idx] with an integer index array.  Concrete indices select rows; symbolic indices (a per-cell
+    material index) give one opaque table lookup per remaining position: lookup(column, index)."""
+    if all(isinstance(_as_int(i), int) for i in idx.data) and not idx.sp:
+        out = [getitem(a, _as_int(i)) for i in idx.data]
+        return stack(out, 0) if idx.shape else out[0]
+    if a.sp or a.trail or not a.shape:
+        raise AnalysisError("gather with symbolic indices from an array with spatial dims")
+    M, rest = a.shape[0], a.shape[1:]
+    R = _prod(rest)
+    cols = [tuple(to_rat(a.data[m * R + r]) for m in range(M)) for r in range(R)]
+    data = []
+    for e in idx.data:
+        for r in range(R):
+            data.append(Rat.atom(("lookup", cols[r], to_rat(e))))
+    if idx.sp:
+        if idx.trail:
+            raise AnalysisError("gather: index array with trailing dims")
+        return NdArr(idx.shape, data, idx.sp, rest)
+    return NdArr(idx.shape + rest, data)
 
 
 class _At(AbsVal):
@@ -1015,6 +1026,27 @@ def expand_dims(a: NdArr, axis):
 
 def moveaxis(a: NdArr, src, dst):
     nd = a.ndim
+    if a.trail and not a.shape:
+        # (spatial..., t0, t1, ...) -> (t.., spatial...): trailing explicit dims moved in front of the spatial block
+        s_ = [src] if not isinstance(src, (tuple, list)) else list(src)
+        d_ = [dst] if not isinstance(dst, (tuple, list)) else list(dst)
+        s_ = [int(_as_int(x)) % nd for x in s_]
+        d_ = [int(_as_int(x)) % nd for x in d_]
+        t = len(a.trail)
+        first_trail = nd - t
+        if sorted(s_) != list(range(first_trail, nd)) or sorted(d_) != list(range(t)):
+            raise AnalysisError(f"moveaxis {src}->{dst} on an array with trailing dims")
+        order = [None] * t  # order[new position] = trail index
+        for sa_, da_ in zip(s_, d_):
+            order[da_] = sa_ - first_trail
+        new_shape = tuple(a.trail[k] for k in order)
+        data = []
+        for ix in itertools.product(*[range(n) for n in new_shape]):
+            srcix = [0] * t
+            for newpos, k in enumerate(order):
+                srcix[k] = ix[newpos]
+            data.append(a.data[_flat_index(a.trail, srcix)])
+        return NdArr(new_shape, data, a.sp)
     src = [src] if not isinstance(src, (tuple, list)) else list(src)
     dst = [dst] if not isinstance(dst, (tuple, list)) else list(dst)
     src = [int(_as_int(x)) % nd for x in src]
